@@ -1828,6 +1828,13 @@ class Interval(Node):
                     self.is_negative = int_value < 0
                 self.smallest = label
 
+    def replace_table(self, current_table: Optional["Table"], new_table: Optional["Table"]) -> "Interval":
+        """
+        An interval holds no table: it is returned unchanged.  (Every term calls replace_table on its operands, so an
+        interval inside an arithmetic expression, a function call or a criterion must answer the call.)
+        """
+        return self
+
     def __str__(self) -> str:
         return self.get_sql()
 
